@@ -165,7 +165,12 @@ pub fn reach_sender_ex(ctx: &mut Ctx, framing: SendFraming, use_call: bool, meth
             headers.push(("content-length".into(), n.to_string().into_bytes()));
         }
     }
-    let via_added = via_added && !use_call;
+    // 1 in 8 flow-API senders lives on a flow produced by following a redirect: the new request
+    // is body-less (GET), so the body is sent despite the method and the framing header can only
+    // come from the caller's amendment
+    let via_redirect = !use_call && ctx.chance(1, 8);
+    let via_added = (via_added || via_redirect) && !use_call;
+    let despite = despite || via_redirect;
     // the caller's amendment carries the framing header; a Content-Length that accompanies a
     // chunked coding stays on the original request (chunked still wins)
     let added: Vec<Hdr> = if via_added {
@@ -191,6 +196,10 @@ pub fn reach_sender_ex(ctx: &mut Ctx, framing: SendFraming, use_call: bool, meth
         Ok((Sender::Call(c), buf[..n].to_vec()))
     } else {
         let mut f = lib("Flow::new", || Flow::new(req)).map_err(|e| format!("Flow::new: {e}"))?;
+        if via_redirect {
+            f = redirected_prepare(method, &headers)?;
+            ctx.count("p:sender_on_redirected_flow");
+        }
         for (n, v) in &added {
             lib("Flow<Prepare>::header", || f.header(n.as_str(), v.as_slice())).map_err(|e| format!("header: {e}"))?;
         }
@@ -204,9 +213,16 @@ pub fn reach_sender_ex(ctx: &mut Ctx, framing: SendFraming, use_call: bool, meth
             // a caller that writes "until nothing more comes out"
             let mut extra = [0u8; 64];
             let k = lib("Flow<SendRequest>::write", || f.write(&mut extra)).map_err(|e| format!("head write after completion: {e}"))?;
-            if k != 0 {
-                return Err(format!("{} bytes emitted after the head was complete", k));
-            }
+            // anything emitted here is returned behind the head (C03 judges it; the other checks
+            // go on and judge the body writes)
+            let mut head = buf[..n].to_vec();
+            head.extend_from_slice(&extra[..k]);
+            return match lib("Flow<SendRequest>::proceed", || f.proceed()) {
+                Ok(Some(SendRequestResult::SendBody(b))) => Ok((Sender::Flow(b), head)),
+                Ok(Some(_)) => Err("unexpected state after head".into()),
+                Ok(None) => Err("head not complete after 4 KiB write".into()),
+                Err(e) => Err(format!("proceed: {e}")),
+            };
         }
         match lib("Flow<SendRequest>::proceed", || f.proceed()) {
             Ok(Some(SendRequestResult::SendBody(b))) => Ok((Sender::Flow(b), buf[..n].to_vec())),
@@ -214,6 +230,35 @@ pub fn reach_sender_ex(ctx: &mut Ctx, framing: SendFraming, use_call: bool, meth
             Ok(None) => Err("head not complete after 4 KiB write".into()),
             Err(e) => Err(format!("proceed: {e}")),
         }
+    }
+}
+
+/// A flow in its Prepare state that was produced by `as_new_flow` after a 302 whose Location
+/// points at /upload. The original request carried `headers` (framing headers are what a
+/// redirect suppresses), the method is `method` when the redirect keeps it (GET/HEAD) - callers
+/// pass body-less methods with despite-method, or rely on the 307 variant for others.
+fn redirected_prepare(method: &str, headers: &[Hdr]) -> Result<Flow<(), fs::Prepare>, String> {
+    use ureq_proto::client::flow::{RecvResponseResult, RedirectAuthHeaders};
+    // the first request: a plain GET (or the same body-less method) without framing headers
+    let first_method = if matches!(method, "GET" | "HEAD") { method } else { "GET" };
+    let plain: Vec<Hdr> = headers.iter().filter(|(n, _)| !n.eq_ignore_ascii_case("content-length") && !n.eq_ignore_ascii_case("transfer-encoding")).cloned().collect();
+    let req = build_request(first_method, 11, "http://a.test/start", &plain);
+    let f = lib("Flow::new", || Flow::new(req)).map_err(|e| e.to_string())?;
+    let mut f = lib("Flow<Prepare>::proceed", || f.proceed());
+    let mut buf = vec![0u8; 4096];
+    lib("Flow<SendRequest>::write", || f.write(&mut buf)).map_err(|e| e.to_string())?;
+    let mut r = match lib("Flow<SendRequest>::proceed", || f.proceed()) {
+        Ok(Some(SendRequestResult::RecvResponse(r))) => r,
+        _ => return Err("redirected_prepare: no RecvResponse".into()),
+    };
+    lib("Flow<RecvResponse>::try_response", || r.try_response(b"HTTP/1.1 302 Found\r\nLocation: /upload\r\nContent-Length: 0\r\n\r\n").map(|x| x.0)).map_err(|e| e.to_string())?;
+    let mut rd = match lib("Flow<RecvResponse>::proceed", || r.proceed()) {
+        Some(RecvResponseResult::Redirect(rd)) => rd,
+        _ => return Err("redirected_prepare: no Redirect".into()),
+    };
+    match lib("Flow<Redirect>::as_new_flow", || rd.as_new_flow(RedirectAuthHeaders::Never)) {
+        Ok(Some(nf)) => Ok(nf),
+        other => Err(format!("redirected_prepare: as_new_flow -> {:?}", other.map(|o| o.is_some()))),
     }
 }
 
